@@ -271,7 +271,7 @@ func checkDeferStream(r *core.Run, prop string, x *fedExec, ctxMsg string, fault
 func runFED10(r *core.Run) {
 	const prop = "C10"
 	W := r.W
-	e := newFedEnvA(r, true, fedAbstractMode(r))
+	e := newFedEnvA(r, true, fed10AbstractMode(r))
 	o := fedEngineOpts{multiFetch: W.Prob(0.2), scheduleFetches: W.Prob(0.3)}
 	faults := r.Flag("nofaults") == "" && W.Prob(0.25)
 	ctx, cancel := context.WithCancel(context.Background())
@@ -456,7 +456,7 @@ func isNullingOrMissing(f, f0 any) bool {
 	// fetch failed; the fault configuration of C10 only asserts stream shape and nulling
 	fs, ok1 := f.(string)
 	f0s, ok2 := f0.(string)
-	if ok1 && ok2 && strings.HasSuffix(fs, "(null)") {
+	if ok1 && ok2 && strings.Contains(fs, "(null)") { // also through a chain: f1("f3(null)")
 		if i := strings.Index(f0s, "("); i > 0 && strings.HasPrefix(fs, f0s[:i+1]) {
 			return true
 		}
@@ -660,4 +660,15 @@ func (e *fedEnv) deferShape(query string) string {
 		return "-with-defer-and-list-of-lists"
 	}
 	return ""
+}
+
+// fed10AbstractMode: interfaces, unions and lists of lists are admitted in the @defer world only with
+// the flag "abstract": with them two further defect shapes show up (known findings
+// reconstruction/*-with-defer-and-list-of-lists and *-with-response-key-shared-by-type-conditions)
+// together with rarer consequences that are not classified yet, so they are off by default.
+func fed10AbstractMode(r *core.Run) int {
+	if r.Flag("abstract") != "" {
+		return 2
+	}
+	return 0
 }
